@@ -2347,9 +2347,13 @@ fn feed(sc: &mut Scenario, ws: &[&str]) -> LineRes {
                 "running" => Kind::Running,
                 "busy" => Kind::Busy,
                 "feeding" => Kind::Feeding,
-                "backlog" => Kind::Backlog,
+                "backlog" => Kind::Backlog(BACKLOG),
                 "done" => Kind::Done,
-                _ => return bad(),
+                // `backlog:N`: the number of commands queued behind the held task
+                _ => match parse_prefixed(k, "backlog:") {
+                    Some(q) if (1..=1600).contains(&q) => Kind::Backlog(q),
+                    _ => return bad(),
+                },
             };
             if sc.kinds.len() >= 6 || !sc.entries.is_empty() || sc.align.is_some() || !sc.retire.is_empty() {
                 return bad();
@@ -2435,11 +2439,14 @@ fn feed(sc: &mut Scenario, ws: &[&str]) -> LineRes {
                         "nr" => Action::New(Kind::Running),
                         "nb" => Action::New(Kind::Busy),
                         "nf" => Action::New(Kind::Feeding),
-                        "nk" => Action::New(Kind::Backlog),
+                        "nk" => Action::New(Kind::Backlog(BACKLOG)),
                         "nd" => Action::New(Kind::Dropped),
                         "ne" => Action::New(Kind::Early),
                         "x" => Action::StopSysArb,
-                        _ => return bad(),
+                        _ => match parse_prefixed(it, "nk:") {
+                            Some(q) if (1..=1600).contains(&q) => Action::New(Kind::Backlog(q)),
+                            _ => return bad(),
+                        },
                     }
                 };
                 actions.push(a);
@@ -3281,7 +3288,16 @@ fn directed_feeding_c09(w: &mut dyn Write, rng: &mut Rng, thorough: bool) {
 fn write_retire_c09(w: &mut dyn Write, name: &str, rng: &mut Rng, kinds: &[usize], retire: &[usize], origin: &str, mode: &str) {
     writeln!(w, "case {name} c09").unwrap();
     for k in kinds {
-        writeln!(w, "arb {}", KINDS9[*k]).unwrap();
+        if *k == 6 && rng.chance(2, 3) {
+            // (one less than a multiple of 32 half of the time: with the system's `Stop` a whole number of 32s)
+            let q = if rng.chance(1, 2) { 32 * rng.range(1, 36) - 1 } else { rng.range(1, 1200) };
+            writeln!(w, "arb backlog:{q}").unwrap();
+        } else {
+            writeln!(w, "arb {}", KINDS9[*k]).unwrap();
+        }
+    }
+    if rng.chance(1, 4) {
+        writeln!(w, "sysload {}", *rng.pick(&[58, 60, 61, 62, 64, 130, 500])).unwrap();
     }
     if !retire.is_empty() {
         writeln!(w, "retire {}", retire.iter().map(|x| x.to_string()).collect::<Vec<_>>().join(" ")).unwrap();
@@ -3352,8 +3368,47 @@ fn directed_backlog_retire_c09(w: &mut dyn Write, rng: &mut Rng, thorough: bool)
     }
 }
 
+/// Directed scenarios (both tiers, in front): (a) `sysload N` — the system thread has N local tasks that are
+/// runnable all the time when the `Exit` is handled (N around the 61 tasks a LocalSet runs per turn, and far
+/// beyond): the controller stops the arbiters there and then, so they end whatever else is queued on that
+/// thread; (b) `backlog:N` with N + 1 (the system's `Stop`) a multiple of 32 / around other powers of two:
+/// whatever batches the runner takes commands in, none is lost — least of all the `Stop`.
+fn directed_load_c09(w: &mut dyn Write, rng: &mut Rng, thorough: bool) {
+    let mut n = 0;
+    let mut case = |w: &mut dyn Write, rng: &mut Rng, lines: &[String], mode: &str| {
+        writeln!(w, "case l{n} c09").unwrap();
+        n += 1;
+        for l in lines {
+            writeln!(w, "{l}").unwrap();
+        }
+        writeln!(w, "go {mode} j={}", rng.next() % 1_000_000).unwrap();
+    };
+    let s = |x: &str| x.to_string();
+    let loads: &[usize] = if thorough { &[0, 1, 59, 60, 61, 62, 63, 122, 200, 1000, 2000] } else { &[200, 61, 1000, 60] };
+    for (i, q) in loads.iter().enumerate() {
+        let origins: &[&str] = if thorough { &["sys-pre", "foreign", "sys-task", "arb:0"] } else { &[["sys-pre", "foreign", "sys-task", "arb:0"][i % 4]] };
+        for (k, o) in origins.iter().enumerate() {
+            let code = *rng.pick(&[7, 0, -2, 65536]);
+            case(w, rng, &[s("arb running"), s("arb busy"), s("arb running"), format!("sysload {q}"), format!("stop {o} {code}")], ["code", "run", "block"][(i + k) % 3]);
+        }
+    }
+    let sizes: &[[usize; 3]] = if thorough {
+        &[[31, 63, 95], [32, 64, 96], [15, 16, 17], [127, 128, 255], [1023, 1119, 1100], [1, 2, 33], [30, 62, 1055], [159, 191, 1600]]
+    } else {
+        &[[31, 63, 95], [32, 15, 127]]
+    };
+    for (i, t) in sizes.iter().enumerate() {
+        let o = ["foreign", "sys-pre", "sys-task"][i % 3];
+        case(w, rng, &[format!("arb backlog:{}", t[0]), format!("arb backlog:{}", t[1]), format!("arb backlog:{}", t[2]), format!("stop {o} {}", 3 + i)], ["code", "run"][i % 2]);
+        if thorough || i == 0 {
+            case(w, rng, &[s("arb running"), format!("batch sys-pre s1 nk:{} s2", t[0])], "code");
+        }
+    }
+}
+
 fn gen_c09(a: &Args, w: &mut dyn Write) {
     let mut rng = Rng::new(a.seed ^ 0xC09);
+    directed_load_c09(w, &mut rng, a.tier == "thorough");
     directed_backlog_retire_c09(w, &mut rng, a.tier == "thorough");
     directed_feeding_c09(w, &mut rng, a.tier == "thorough");
     directed_block_c09(w, &mut rng, a.tier == "thorough");
@@ -3463,6 +3518,7 @@ fn gen_c09(a: &Args, w: &mut dyn Write) {
     writeln!(w, "case bad3\narb running\nstop sys-pre 0\ngo code j=0").unwrap();
     writeln!(w, "case bad4 c09\nalign 0\narb done\nalign 1\nalign x\nalign 0\nalign 0\narb running\nstop arb:0 1\nstop foreign 1\nalign 0\ngo code j=2").unwrap();
     writeln!(w, "case bad5 c09 rt=custom\narb running\nbatch\nbatch foreign s1\nbatch sys-pre\nbatch sys-pre seq\nbatch arb:1 s1\nbatch sys-pre s1 nx\nbatch sys-pre sx\nbatch sys-pre s1 s2 s3 s4 s5 s6\nbatch sys-pre nr nr nr\nbatch sys-pre nr seq race\nbatch sys-pre nr\ngo code j=1\nbatch sys-task s1\nstop sys-task 1\nstop sys-pre 2 seq\nstop sys-pre 3 race\nstop foreign 4\ngo code j=3").unwrap();
+    writeln!(w, "case bad12 c09\narb backlog:0\narb backlog:1601\narb backlog:\narb backlog:31\nsysload x\nsysload 2001\nsysload 61\nsysload 61\nbatch sys-pre nk:0 s1\nbatch sys-pre nk:32 s1\nstop arb:0 3\nsysload 5\ngo code j=12").unwrap();
     writeln!(w, "case bad11 c09\narb running\narb early\narb running\narb backlog\nretire 1\nretire 3\nretire 0 0\nretire 0 9\nretire\nretire 2\nretire 0\narb running\nstop arb:2 1\nstop arb:3 1\nstop arb:0 4\nretire 0\ngo code j=11").unwrap();
     writeln!(w, "case bad10 c09\nsysfeed\nsysfeed\narb feeding\narb feed\nbatch sys-pre nf nx s1\nbatch sys-pre nf s1\nsysfeed\ngo code j=2").unwrap();
     writeln!(w, "case bad9 c09\narb running\nbatch sys-pre nr s1\ngo block j=1\ngo blok j=1\ngo block\ngo run j=2\ngo block j=3").unwrap();
@@ -3495,6 +3551,18 @@ fn directed_c10(w: &mut dyn Write, rng: &mut Rng, n: &mut usize, thorough: bool)
     // (0) a task running ON an arbiter sends while its thread is held: to its own arbiter through
     // `Arbiter::current()` (`c0`) or a captured handle (`t0`), behind commands / a stop other threads
     // have already sent; to another arbiter; stopping its own arbiter
+    // (00000000) exactly 32 / 64 commands (or 31 / 63 and a stop) found in one go behind a held thread: whatever
+    // batches the runner takes them in, every command in front of the stop starts and the stop is obeyed
+    case(w, &[s("arb"), s("spawn 0 own gate"), s("wait t0"), s("spawnn 0 own fn 32"), s("open t0"), s("wait t32"), s("stop 0 own")], rng);
+    case(w, &[s("arb"), s("spawn 0 h1 gate"), s("wait t0"), s("spawnn 0 h2 fut 31"), s("stop 0 own"), s("open t0")], rng);
+    if thorough {
+        for q in [15usize, 16, 31, 32, 33, 63, 64, 95, 96, 127, 128, 255, 256] {
+            for tgt in ["arb", "sysarb"] {
+                case(w, &[s(tgt), s("spawn 0 own gate"), s("wait t0"), format!("spawnn 0 h1 fn {q}"), s("open t0"), format!("wait t{q}"), s("stop 0 own")], rng);
+                case(w, &[s(tgt), s("spawn 0 own gate"), s("wait t0"), format!("spawnn 0 own fn {q}"), s("stop 0 h2"), s("spawnn 0 h1 fn 40"), s("open t0")], rng);
+            }
+        }
+    }
     // (0000000) arbiters created AFTER `System::stop()` was handled (the runner inside `block_on`): the stop
     // broadcast was over before they existed, nobody has stopped them — they accept and run commands;
     // a System created after another one's `run()` returned does not get the id of a System still alive
